@@ -992,7 +992,9 @@ fn filter_fixed_size_binary(
 
     let nulls = predicate.filter_nulls(array.nulls());
 
-    FixedSizeBinaryArray::new(array.value_length(), buffer.into(), nulls)
+    // pass the length explicitly: it cannot be derived from the buffer when `value_length` is zero
+    FixedSizeBinaryArray::try_new_with_len(array.value_length(), buffer.into(), nulls, predicate.count)
+        .unwrap()
 }
 
 /// `filter` implementation for dictionaries
